@@ -1,0 +1,202 @@
+//go:build verif
+
+// Contracts for the line cursor (C04, C13).  Comments only; see
+// contracts_verif.go for the conventions.
+
+package commonmark
+
+// ---------------------------------------------------------------------------
+// Columns (CommonMark 0.30 section 2.2): a tab advances to the next multiple
+// of 4; every other ASCII byte is one column; bytes >= 0x80 are not counted by
+// columnWidth (it is only ever applied to ASCII structure: indentation,
+// container markers).  ColAfter(s,a,b,c) is the column after s[a:b) when s[a]
+// stands at column c.
+// ---------------------------------------------------------------------------
+
+//@ spec ColStep(c int, ch int) int = ch == '\t' ? (c + 4) - ((c + 4) % 4) : (ch < 128 ? c + 1 : c)
+//@ spec ColAfter(s []byte, a int, b int, c int) int = b <= a ? c : ColStep(ColAfter(s, a, b - 1, c), s[b - 1])
+//@ -- IL(s,a): length of the run of spaces and tabs that starts at a
+//@ spec IL(s []byte, a int) int = (a < len(s) && IsWS(s[a])) ? 1 + IL(s, a + 1) : 0
+
+//@ lemma ColAfter_mono(s []byte, a int, b int, c int)
+//@   requires 0 <= c && a <= b
+//@   ensures c <= ColAfter(s, a, b, c) && ColAfter(s, a, b, c) <= c + 4 * (b - a)
+//@   induction b from a
+//@   trigger ColAfter(s, a, b, c)
+
+//@ func columnWidth
+//@   requires 0 <= start && start <= 1152921504606846976
+//@   ensures[width] result == ColAfter(b, 0, len(b), start) - start
+//@   ensures[range] 0 <= result && result <= 4 * len(b)
+//@   loop 0: invariant[col] end == ColAfter(b, 0, _i, start) && start <= end && end <= start + 4 * _i
+//@   serves C04, C13
+
+// ---------------------------------------------------------------------------
+// The cursor invariant.  p.i is a position in p.line; when the cursor stands
+// on a tab, tabRemaining is the number of columns of that tab not yet consumed
+// (1..4), otherwise it is 0; col is bounded by four columns per byte consumed
+// (so the column arithmetic cannot overflow).
+// ---------------------------------------------------------------------------
+
+//@ spec AtTab(p *lineParser) bool = p.i < len(p.line) && p.line[p.i] == '\t'
+//@ spec CursorOK(p *lineParser) bool = 0 <= p.i && p.i <= len(p.line) && 0 <= p.col
+//@    && (AtTab(p) ? (1 <= p.tabRemaining && p.tabRemaining <= 4 && p.col + p.tabRemaining <= 4 * (p.i + 1)) : (p.tabRemaining == 0 && p.col <= 4 * p.i))
+
+//@ -- width in columns of the run of spaces and tabs that starts at a, when s[a] stands at column c
+//@ spec WSWidth(s []byte, a int, c int) int = ColAfter(s, a, a + IL(s, a), c) - c
+//@ -- what Indent() returns: the columns of white space after the cursor (a partly consumed tab counts its remainder)
+//@ spec IndentCols(p *lineParser) int = p.i >= len(p.line) ? 0 : (p.line[p.i] == ' ' ? 1 + WSWidth(p.line, p.i + 1, p.col + 1)
+//@    : (p.line[p.i] == '\t' ? p.tabRemaining + WSWidth(p.line, p.i + 1, p.col + p.tabRemaining) : 0))
+
+//@ lemma IL_bounds(s []byte, a int)
+//@   requires 0 <= a
+//@   ensures 0 <= IL(s, a) && (a <= len(s) ==> a + IL(s, a) <= len(s))
+//@   decreases len(s) - a
+//@   ih IL_bounds(s, a + 1)
+//@   trigger IL(s, a)
+
+//@ lemma IL_is(s []byte, a int, n int)
+//@   requires 0 <= a && 0 <= n && a + n <= len(s)
+//@   requires forall k in [a, a + n): IsWS(s[k])
+//@   requires a + n == len(s) || !IsWS(s[a + n])
+//@   ensures IL(s, a) == n
+//@   decreases n
+//@   ih IL_is(s, a + 1, n - 1)
+
+//@ -- peel the first byte instead of the last
+//@ lemma ColAfter_front(s []byte, a int, b int, c int)
+//@   requires a < b
+//@   ensures ColAfter(s, a, b, c) == ColAfter(s, a + 1, b, ColStep(c, s[a]))
+//@   induction b from a + 1
+
+//@ -- a sub-slice sees the same columns, shifted
+//@ lemma ColAfter_shift(s []byte, d int, a int, b int, c int)
+//@   requires 0 <= d && 0 <= a && a <= b
+//@   ensures ColAfter(s[d:], a, b, c) == ColAfter(s, a + d, b + d, c)
+//@   induction b from a
+
+//@ func (*lineParser).updateTabRemaining
+//@   requires !isnil(p) && 0 <= p.i && p.i <= len(p.line) && 0 <= p.col && p.col <= 4 * p.i + 4
+//@   modifies p.tabRemaining
+//@   ensures[tab] AtTab(p) ? p.tabRemaining == 4 - p.col % 4 : p.tabRemaining == 0
+//@   serves C04, C13
+
+//@ func (*lineParser).Advance
+//@   requires !isnil(p) && CursorOK(p) && 0 <= n && n <= len(p.line) - p.i
+//@   modifies p.i, p.col, p.tabRemaining, p.state
+//@   ensures[pos] p.i == old(p.i) + n && CursorOK(p)
+//@   ensures[line] aliases(p.line, old(p.line)) && len(p.line) == len(old(p.line))
+//@   use ColAfter_mono(p.line[old(p.i) + 1:old(p.i) + n], 0, n - 1, old(p.col))
+//@   use ColAfter_mono(p.line[old(p.i):old(p.i) + n], 0, n, old(p.col))
+//@   serves C04, C13
+
+//@ func (*lineParser).ConsumeLine
+//@   requires !isnil(p) && CursorOK(p)
+//@   modifies p.i, p.col, p.tabRemaining, p.state
+//@   ensures[end] p.i == len(p.line) && CursorOK(p)
+//@   serves C04
+
+//@ func (*lineParser).BytesAfterIndent
+//@   requires !isnil(p) && 0 <= p.i && p.i <= len(p.line)
+//@   ensures[rest] sameArray(result, p.line) && offsetOf(result) == offsetOf(p.line) + p.i + IL(p.line, p.i) && len(result) == len(p.line) - p.i - IL(p.line, p.i)
+//@   use IL_is(p.line, p.i, offsetOf(result) - offsetOf(p.line) - p.i)
+//@   serves C04, C13
+
+//@ func (*lineParser).IsRestBlank
+//@   requires !isnil(p) && 0 <= p.i && p.i <= len(p.line)
+//@   ensures[blank] result <==> (forall k in [p.i, len(p.line)): IsSpaceTabEOL(p.line[k]))
+//@   serves C04
+
+//@ func (*lineParser).Indent
+//@   requires !isnil(p) && CursorOK(p)
+//@   ensures[cols] result == IndentCols(p)
+//@   ensures[range] 0 <= result
+//@   callsite indentLength: use IL_is(p.line, p.i + 1, $result)
+//@   callsite columnWidth: use ColAfter_shift(p.line, p.i + 1, 0, len($1), $0)
+//@   serves C04, C13
+
+//@ lemma WSWidth_unfold(s []byte, a int, c int)
+//@   requires 0 <= a && 0 <= c
+//@   ensures (a < len(s) && IsWS(s[a])) ? WSWidth(s, a, c) == ColStep(c, s[a]) - c + WSWidth(s, a + 1, ColStep(c, s[a])) : WSWidth(s, a, c) == 0
+//@   use ColAfter_front(s, a, a + IL(s, a), c)
+//@   use IL_bounds(s, a + 1)
+
+//@ -- ConsumeIndent(n) consumes exactly n columns of the white space after the cursor: it cannot run past the
+//@ -- indentation (the panic is unreachable) when n is at most what Indent() reports, and afterwards Indent() reports n less
+//@ func (*lineParser).ConsumeIndent
+//@   requires !isnil(p) && CursorOK(p) && 0 <= n && n <= IndentCols(p)
+//@   modifies p.i, p.col, p.tabRemaining, p.state
+//@   ensures[ok] CursorOK(p) && old(p.i) <= p.i
+//@   ensures[remaining] IndentCols(p) == old(IndentCols(p)) - n
+//@   ensures[run] p.i + IL(p.line, p.i) == old(p.i) + IL(p.line, old(p.i))
+//@   ensures[line] aliases(p.line, old(p.line)) && len(p.line) == len(old(p.line))
+//@   loop 0: invariant[ok] !isnil(p) && CursorOK(p) && 0 <= n && n <= IndentCols(p) && old(p.i) <= p.i
+//@   loop 0: invariant[acct] IndentCols(p) - n == old(IndentCols(p)) - old(n)
+//@   loop 0: invariant[run] p.i + IL(p.line, p.i) == old(p.i) + IL(p.line, old(p.i))
+//@   loop 0: invariant[frame] framed()
+//@   loop 0: decreases n
+//@   loop 0: use WSWidth_unfold(p.line, p.i, p.col)
+//@   loop 0: use WSWidth_unfold(p.line, p.i + 1, p.col + 1)
+//@   loop 0: use WSWidth_unfold(p.line, p.i + 1, p.col + p.tabRemaining)
+//@   serves C04, C13
+
+// ---------------------------------------------------------------------------
+// Block starts over the cursor (C13, C04).  A block's span starts at the cursor
+// position at the moment it is opened (openBlock), so "fenced code starts with
+// its fence" and "an ATX heading starts with its # run" are obligations at the
+// call that opens the block: the cursor stands on the first byte of what the
+// recogniser matched.  The cursor methods are used through their contracts, so
+// the panics of Advance and ConsumeIndent are unreachable here; the tree
+// surgery (openBlock and friends) is abstracted and cannot move the cursor
+// (structural check).
+// ---------------------------------------------------------------------------
+
+//@ lemma IndentCols_zero(s []byte, a int, c int)
+//@   requires 0 <= a && 0 <= c
+//@   ensures 0 <= WSWidth(s, a, c)
+//@   use IL_bounds(s, a)
+//@   use ColAfter_mono(s, a, a + IL(s, a), c)
+
+//@ -- CollectInline(kind, n) skips the indentation after the cursor (recording it as an indent node) and takes the next
+//@ -- n bytes as one inline node; it needs n bytes after the indentation, and leaves the cursor right after them
+//@ func (*lineParser).CollectInline
+//@   requires[cursor] !isnil(p) && CursorOK(p)
+//@   requires[state] !isnil(p.container) && p.state != stateDescendTerminated
+//@   requires[fits] 0 <= n && p.i + IL(p.line, p.i) + n <= len(p.line)
+//@   requires[linestart] 0 <= p.lineStart && p.lineStart <= 281474976710656
+//@   modifies everything
+//@   havoccall parseInfoString keeps lineParser.i, lineParser.col, lineParser.line, lineParser.tabRemaining, lineParser.container, lineParser.lineStart, lineParser.source, elems:byte
+//@   ensures[cursor] !isnil(p) && CursorOK(p) && p.i == old(p.i) + IL(old(p.line), old(p.i)) + n && aliases(p.line, old(p.line)) && len(p.line) == len(old(p.line))
+//@   callsite (*lineParser).Indent: use IndentCols_zero(p.line, p.i + 1, p.col + 1)
+//@   callsite (*lineParser).Indent: use IndentCols_zero(p.line, p.i + 1, p.col + p.tabRemaining)
+//@   callsite indentLength: use IL_is(p.line, p.i, $result)
+//@   serves C04, C13
+
+//@ lemma FirstNonWS_at(s []byte, a int, b int)
+//@   requires a <= b
+//@   ensures FirstNonWS(s, a, b) < b ==> !IsWS(s[FirstNonWS(s, a, b)])
+//@   decreases b - a
+//@   ih FirstNonWS_at(s, a + 1, b)
+//@   use FirstNonWS_bounds(s, a + 1, b)
+
+//@ lemma RunEnd_all(s []byte, c int, a int, b int)
+//@   requires a <= b
+//@   ensures forall k in [a, RunEnd(s, c, a, b)): s[k] == c
+//@   decreases b - a
+//@   ih RunEnd_all(s, c, a + 1, b)
+//@   use RunEnd_bounds(s, c, a + 1, b)
+
+//@ func closure(parseCodeFence&(*lineParser).OpenFencedCodeBlock)
+//@   requires !isnil(p) && CursorOK(p)
+//@   modifies everything
+//@   havoccall (*lineParser).OpenFencedCodeBlock, (*lineParser).SetContainerIndent keeps lineParser.i, lineParser.col, lineParser.line, lineParser.tabRemaining, elems:byte
+//@   unclaimed pre@(*lineParser).CollectInline#0:state the container opened by OpenFencedCodeBlock is non-nil and the parser is not in a terminated state (tree-building state, abstracted here)
+//@   unclaimed pre@(*lineParser).CollectInline#0:linestart the line start is an index into the parser's buffer (tree-building state, abstracted here)
+//@   callsite (*lineParser).OpenFencedCodeBlock: requires[at-fence] p.i + $2 <= len(p.line) && $2 >= 3 && ($1 == '`' || $1 == '~') && (forall k in [0, $2): p.line[p.i + k] == $1)
+//@   callsite (*lineParser).ConsumeIndent: use IndentCols_zero(p.line, p.i + 1, p.col + 1)
+//@   callsite (*lineParser).ConsumeIndent: use IndentCols_zero(p.line, p.i + 1, p.col + p.tabRemaining)
+//@   callsite parseCodeFence: use RunEnd_bounds($0, $0[0], 0, BodyLen($0))
+//@   callsite parseCodeFence: use RunEnd_all($0, $0[0], 0, BodyLen($0))
+//@   callsite parseCodeFence: use FirstNonWS_at($0, FenceRun($0), BodyLen($0))
+//@   unclaimed pre@parseCodeFence the line handed to the recogniser has at most one line ending, at its end (established by readline; not carried through the block-structure code)
+//@   serves C13, C04
